@@ -10,6 +10,7 @@ package main
 //	req <forced> <reasons> <keys> <wrefs>
 //	nilreq
 //	order <watched types>
+//	wreq <addresses updated> <forced> <reasons> <keys>
 //	conn <watched types> <services of the push context> <fresh scope> <forced> <reasons> <keys> <wrefs>
 //	merge <forced1> <reasons1> <keys1> <wrefs1> <forced2> <reasons2> <keys2> <wrefs2>
 //
@@ -336,6 +337,16 @@ func genNeeds(seed uint64, n int, out string) {
 				o.Line("nilreq")
 			case cr.Chance(1, 12):
 				o.Line("order", join(wire.Subset(cr, allTypes, 1, 2)))
+			case cr.Chance(1, 10):
+				q := genReq(cr, kinds, p)
+				if cr.Chance(1, 3) {
+					q.Reasons = []string{"proxyrequest"}
+				}
+				if cr.Chance(1, 4) {
+					q.Keys = append(q.Keys, mKey{Kind: kind.AuthorizationPolicy, Name: 5, Ns: 1})
+				}
+				t := q.toks()
+				o.Line("wreq", wire.B(cr.Chance(1, 3)), t[0], t[1], t[2])
 			case cr.Chance(1, 4):
 				q := genReq(cr, kinds, p)
 				var svcs []int
@@ -592,6 +603,21 @@ func (r recorder) Generate(proxy *model.Proxy, w *model.WatchedResource, req *mo
 	return nil, model.DefaultXdsLogDetails, nil
 }
 
+// workloadDecisions: the real ambient generators (WDS, WorkloadAuthorization); nil resources = skip.
+func (e *needsEnv) workloadDecisions(mp mProxy, q mReq, addrs bool) string {
+	px := e.scopes.realProxy(mp)
+	req := realReq(q, e.push)
+	if addrs {
+		req.AddressesUpdated = sets.New("/10.0.0.1")
+	}
+	d := e.s.Discovery
+	w := &model.WatchedResource{TypeUrl: longType("WDS"), Wildcard: true}
+	r1, _, _ := xds.WorkloadGenerator{Server: d}.Generate(px, w, req)
+	w2 := &model.WatchedResource{TypeUrl: longType("WAUTH"), Wildcard: true, ResourceNames: sets.New[string]()}
+	r2, _, _ := xds.WorkloadRBACGenerator{Server: d}.Generate(px, w2, req)
+	return "wds=" + wire.B(r1 != nil) + " wauth=" + wire.B(r2 != nil)
+}
+
 // connection runs the REAL pushConnection (state refresh, per-proxy filter, one pushXds per watched
 // type in push order) for a proxy watching `watched`, with recording generators.
 func (e *needsEnv) connection(mp mProxy, watched []string, svcs []int, q mReq) string {
@@ -746,6 +772,9 @@ func execNeeds(in, out string) {
 				o.Line(e.nilDecisions(mp)...)
 			case "order":
 				o.Line(orderLine(mp, parseList(f[1], ",")))
+			case "wreq":
+				q := parseReq([]string{f[2], f[3], f[4], "-"})
+				o.Line(agree(func() string { return e.workloadDecisions(mp, q, f[1] == "1") }))
 			case "conn":
 				var svcs []int
 				for _, x := range parseList(f[2], ",") {
